@@ -25,17 +25,48 @@ Qed.
 
 Theorem sinks_see_one_factory_one_write : forall M (pm : M -> meta) c w (es : list (event N M)),
   well_typed w = true ->
-  (pol c = ClearAfterOnly -> NoAbortedFormat es) ->
-  distribute pm w (snd (run_thread c [] es)) = sink_spec pm w (flat_map (records (lie c)) es).
+  (pol c = ClearAfterOnly -> NoAbortedFormat no_unwind (lie c) es) ->
+  distribute pm w (snd (run_thread no_unwind c [] es)) = sink_spec pm w (flat_map (records (lie c)) es).
 Proof.
-  intros M pm c w es WT Hp. rewrite (one_factory_one_write N M c es Hp). apply distribute_spec, WT.
+  intros M pm c w es WT Hp. rewrite (one_factory_one_write N M no_unwind c es Hp). apply distribute_spec, WT.
+Qed.
+
+(** ** ... and what they see when sinks fail.
+
+    Per routed record: one [make_writer_for] carrying that event's metadata on every denoted sink, then,
+    on every denoted sink in order, the [write] calls std's [write_all] loop makes of THAT sink's script and
+    the whole record — whatever the other sinks of the record did, and whatever happened to earlier records
+    (a panicking sink stops the walk over the record's sinks; later records are not affected). *)
+Definition sink_spec_f {M} (pm : M -> meta) (w : wexp) (rs : list ((M * list script) * bytes)) : list (N * fentry) :=
+  flat_map (fun r => let m := pm (fst (fst r)) in
+                     map (fun i => (i, FMake m)) (denote w m)
+                     ++ flat_calls (spec_calls (leaf_of MWriteAll (snd r)) (planf (snd (fst r))) 0%nat (denote w m))) rs.
+
+Lemma distribute_f_spec : forall M (pm : M -> meta) w (rs : list ((M * list script) * bytes)),
+  well_typed w = true -> distribute_f true pm w (spec_actions rs) = sink_spec_f pm w rs.
+Proof.
+  intros M pm w rs WT. unfold distribute_f, sink_spec_f, spec_actions.
+  induction rs as [|[mp r] t IH]; simpl; [reflexivity|].
+  rewrite (asked_is_route _ _ WT), routing. unfold fwrite.
+  destruct (routing_with_faults w (pm (fst mp)) (leaf_of MWriteAll r) (planf (snd mp))) as [C _].
+  cbv zeta in C. simpl in C |- *. rewrite C. rewrite <- app_assoc. f_equal. f_equal. exact IH.
+Qed.
+
+Theorem sinks_see_faulty_writes : forall M (pm : M -> meta) c w (es : list (event N (M * list script))),
+  well_typed w = true ->
+  (pol c = ClearAfterOnly -> NoAbortedFormat (unw_f true pm w) (lie c) es) ->
+  distribute_f true pm w (snd (run_thread (unw_f true pm w) c [] es))
+  = sink_spec_f pm w (flat_map (records (lie c)) es).
+Proof.
+  intros M pm c w es WT Hp. rewrite (one_factory_one_write N _ (unw_f true pm w) c es Hp).
+  apply distribute_f_spec, WT.
 Qed.
 
 (** The same for a thread of the full pipeline (span lifecycle pseudo-events included: they are
     emissions like any other). *)
 Theorem thread_sinks : forall c f o sc w th ops,
   well_typed w = true ->
-  (pol c = ClearAfterOnly -> NoAbortedFormat (thread_events f o sc th ops)) ->
+  (pol c = ClearAfterOnly -> NoAbortedFormat no_unwind (lie c) (thread_events f o sc th ops)) ->
   thread_sink_log c f o sc w th ops
   = sink_spec meta_of w (flat_map (records (lie c)) (thread_events f o sc th ops)).
 Proof. intros. unfold thread_sink_log. apply sinks_see_one_factory_one_write; assumption. Qed.
@@ -355,3 +386,18 @@ Example content_example_compact :
   let sc := [Span (str "outer") [[(str "a", str "1")]; [(str "b", str "2")]]; Span (str "inner") [[]]] in
   format_event Compact o (Thr [] []) (Em m sc (FOk (str "k") (str "7") FNil)) = OOk (str "! app:k=7 a=1 b=2" ++ [10]).
 Proof. vm_compute. auto. Qed.
+
+(** Non-vacuity of [sinks_see_faulty_writes]: [a.and(b)], three records; the LEFT sink fails the second
+    one and accepts the third a byte at a time.  The healthy right sink gets every record whole, the record
+    after the failed write is whole and unprefixed. *)
+Example faulty_pipeline_example :
+  let m := Meta 3 [] [] false in
+  let es : list (event N (meta * list script)) :=
+    [ Ev (m, []) [] (OOk [65; 10]); Ev (m, [[RsFail]]) [] (OOk [66; 10]); Ev (m, [[RsAccept 1; RsAccept 1]]) [] (OOk [67; 10]) ] in
+  distribute_f true (fun x => x) (WTee (WSink 0) (WSink 1))
+    (snd (run_thread (unw_f true (fun x => x) (WTee (WSink 0) (WSink 1))) (Cfg ClearBefore true) [] es))
+  = [ (0, FMake m); (1, FMake m); (0, FCall (CWrite [65; 10] (RsAccept 2))); (1, FCall (CWrite [65; 10] (RsAccept 2)));
+      (0, FMake m); (1, FMake m); (0, FCall (CWrite [66; 10] RsFail));        (1, FCall (CWrite [66; 10] (RsAccept 2)));
+      (0, FMake m); (1, FMake m); (0, FCall (CWrite [67; 10] (RsAccept 1))); (0, FCall (CWrite [10] (RsAccept 1)));
+      (1, FCall (CWrite [67; 10] (RsAccept 2))) ].
+Proof. vm_compute. reflexivity. Qed.
